@@ -2,7 +2,7 @@
 # usage: soak.sh "<seeds>" [props...]   runs quick checks with several VERIF_SEED values; lists non-zero exits
 SEEDS=${1:-"1 2 3"}; shift
 PROPS=${@:-"C01 C02 C04 C05 C06 C08 C09 C10 C11 C12 C13 C14 C15 C16 C17 C19"}
-cd /verif
+cd "$(dirname "$0")/.."
 for s in $SEEDS; do for p in $PROPS; do
   out=$(VERIF_SEED=$s timeout 1500 /venv/bin/python run_check.py $p --tier quick 2>&1); rc=$?
   echo "seed=$s $p exit=$rc $(echo "$out" | tail -1)"
